@@ -1189,6 +1189,25 @@ fn grid() {
                         && (&ba).into_iter().copied().collect::<Vec<u32>>() == a && ba.iter().rev().copied().collect::<Vec<u32>>() == a.iter().rev().copied().collect::<Vec<u32>>()
                         && (n == 0 || (ba[(n - 1) as usize] == a[(n - 1) as usize] && ba[..(n as usize / 2)] == a[..(n as usize / 2)]))
                         && ba.clone().to_vec() == a && ba.first() == a.first() && ba.last() == a.last();
+                    // the mutable side: IndexMut, AsMut, BorrowMut, DerefMut, iteration by &mut, and the Debug
+                    // output of the draining iterators
+                    let mut ok = ok;
+                    {
+                        let (mut bm, mut sm) = (ba.clone(), a.clone());
+                        if n > 0 { bm[0] = 77; sm[0] = 77; bm[..(n as usize)][n as usize - 1] += 1; sm[..(n as usize)][n as usize - 1] += 1; }
+                        AsMut::<[u32]>::as_mut(&mut bm).reverse(); AsMut::<[u32]>::as_mut(&mut sm).reverse();
+                        std::borrow::BorrowMut::<[u32]>::borrow_mut(&mut bm).sort(); std::borrow::BorrowMut::<[u32]>::borrow_mut(&mut sm).sort();
+                        for x in &mut bm { *x = x.wrapping_mul(3); }
+                        for x in &mut sm { *x = x.wrapping_mul(3); }
+                        bm.rotate_left(n as usize / 2); sm.rotate_left(n as usize / 2);
+                        AsMut::<BVec<u32>>::as_mut(&mut bm).push(5); sm.push(5);
+                        ok = ok && bm[..] == sm[..] && AsRef::<BVec<u32>>::as_ref(&bm).len() == sm.len();
+                        let k = (m as usize).min(sm.len());
+                        ok = ok && format!("{:?}", bm.drain(..k)) == format!("{:?}", sm.drain(..k)) && bm[..] == sm[..];
+                        let (mut bi, mut si) = (bm.into_iter(), sm.into_iter());
+                        bi.next(); si.next(); bi.next_back(); si.next_back();
+                        ok = ok && format!("{:?}", bi) == format!("{:?}", si) && bi.as_slice() == si.as_slice() && bi.len() == si.len();
+                    }
                     let mut be = ba.clone(); be.extend(b.iter()); let mut se = a.clone(); se.extend(b.iter());
                     if !ok || be.to_vec() != se { bad += 1; println!("Q vec_traits_u32 n={} m={} | differs | -", n, m); }
                 }
@@ -1245,6 +1264,42 @@ fn grid() {
                     if !same { println!("Q collect_early_stop_huge_hint hint={} stop={} | option:{} result:{} boxed:{} | none_or_err", hint, stop, if bo.is_err() { "panic" } else { "differs_or_ok" }, if br.is_err() { "panic" } else { "differs_or_ok" }, if bb.is_err() { "panic" } else { "differs_or_ok" }); }
                 }
             }
+        }
+        // dedup_by_key with a key function that logs its calls, and the raw-parts round trip
+        {
+            let mut bad = 0usize;
+            for n in [0usize, 1, 2, 7, 20] {
+                for m in [1u32, 2, 3] {
+                    let data: Vec<u32> = (0..n as u32).map(|i| (i * 7 + i / 3) % 11).collect();
+                    let mut sv = data.clone();
+                    let mut bv: BVec<u32> = BVec::from_iter_in(data.iter().copied(), &bump);
+                    let (mut sl, mut bl) = (Vec::new(), Vec::new());
+                    sv.dedup_by_key(|x| { sl.push(*x); *x / m });
+                    bv.dedup_by_key(|x| { bl.push(*x); *x / m });
+                    if sv[..] != bv[..] || sl != bl { bad += 1; if bad <= 2 { println!("Q vec_dedup_by_key n={} m={} | {:?} calls={:?} | {:?} calls={:?}", n, m, &bv[..], bl, sv, sl); } }
+                }
+                // take a vector apart and put it together again: same contents, same capacity, and
+                // the elements are dropped once, by the rebuilt vector
+                use std::cell::RefCell;
+                use std::rc::Rc;
+                struct D(u32, Rc<RefCell<Vec<u32>>>);
+                impl Drop for D { fn drop(&mut self) { self.1.borrow_mut().push(self.0); } }
+                let led = Rc::new(RefCell::new(Vec::new()));
+                let mut v: BVec<D> = BVec::with_capacity_in(n + 3, &bump);
+                for i in 0..n as u32 { v.push(D(i, led.clone())); }
+                let (p, l, c) = (v.as_mut_ptr(), v.len(), v.capacity());
+                std::mem::forget(v);
+                let mut w = unsafe { BVec::from_raw_parts_in(p, l, c, &bump) };
+                let same = w.len() == n && w.capacity() == c && w.as_ptr() == p as *const D && w.iter().map(|d| d.0).eq(0..n as u32) && led.borrow().is_empty();
+                w.push(D(99, led.clone()));
+                let still = w.as_ptr() == p as *const D;
+                drop(w);
+                let mut all = led.borrow().clone();
+                all.sort();
+                let want: Vec<u32> = (0..n as u32).chain(std::iter::once(99)).collect();
+                if !same || !still || all != want { bad += 1; if bad <= 2 { println!("Q vec_from_raw_parts n={} | same={} in_place_push={} dropped={:?} | -", n, same, still, all); } }
+            }
+            println!("Q vec_dedup_key_raw_parts_sweep | {} | same", if bad == 0 { "same".to_string() } else { format!("{}_cases_differ", bad) });
         }
         // Option / Result collects into boxed slices and vectors from a source that fails more than once
         // and counts what is taken from it: which error comes back and how far the source was consumed
